@@ -15,7 +15,7 @@ Open Scope N_scope.
    represents sg on the variables of e, with no user variable spelled like a converter helper:
    if e has the value v (peval) then the lines the converter appends run without error and leave the value's
    text in the returned atom; no variable other than fresh helpers changes. *)
-From Verif Require Import Facts.C01Facts Sem.CallPreserve Facts.SimSamples.
+From Verif Require Import Facts.C01Facts Sem.CallPreserve Sem.JRun Facts.SimSamples.
 
 Theorem C01_expression_preserved : forall e sg used s vs s' b v,
   pure e = true ->
@@ -155,3 +155,13 @@ Example C01_loop_hypotheses_hold :
                    out = bs "0 0" ++ [10] ++ bs "1 1" ++ [10] ++ bs "3 4" ++ [10] ++ bs "4 8" ++ [10] ++ bs "end 8" ++ [10]) /\
   ctx_ok SimSamples.XS3 SimSamples.sg_empty [] b_init /\ fresh_flags 0 0 SimSamples.XS3 b_init.
 Proof. exact (conj SimSamples.loop_sample_derivation (conj SimSamples.ctx3 SimSamples.fresh3)). Qed.
+
+(* The source semantics J of the theorems above is executable: whatever the interpreter jrun computes (its side conditions
+   decided by boolean checks) has a J derivation - so J's hypotheses are satisfiable exactly where the interpreter answers.
+   The interpreter is extracted and, on every generated program of the fragment, its output must equal the reference
+   semantics Sem/Src.v, which in turn must equal the /bin/bash run of the implementation's script. *)
+Theorem C01_source_semantics_executable : forall scall XS jc,
+  (forall f vals sg rvals sg1 o, jc f vals sg = Some (rvals, sg1, o) -> env_ok sg -> scall XS f vals sg rvals sg1 o /\ env_ok sg1) ->
+  forall fuel c sg sg' out g, jrun fuel XS jc c sg = Some (sg', out, g) -> env_ok sg -> J scall XS c sg sg' out g.
+Proof. exact (fun scall XS jc Hjc fuel c sg sg' out g H He => jrun_sound scall XS jc Hjc fuel c sg (sg', out, g) H He). Qed.
+Print Assumptions C01_source_semantics_executable.
